@@ -54,7 +54,7 @@ def generate(rng, tier) -> dict:
     nfiles = rng.choice([1, 1, 2])
     mx = 48 if tier == "quick" else 200
     counts = [rng.choice([1, 2, rng.randint(1, mx // nfiles), rng.randint(1, mx // nfiles)]) for _ in range(nfiles)]
-    spec = {"nbits": nbits, "nchans": nchans, "nsamps": counts, "pad": [rng.randint(0, 5) for _ in counts],
+    spec = {"nbits": nbits, "nchans": nchans, "nsamps": counts, "pad": filgen.gen_pads(rng, len(counts), 5),
             "vseed": rng.randrange(1 << 16), "mode": rng.choice(["small", "small", "small", "gappy"])}
     if rng.random() < (0.02 if tier == "quick" else 0.06):
         nchans = rng.choice([c for c in (64, 128, 256) if (c * nbits) % 8 == 0])
